@@ -219,7 +219,116 @@ func c18(args []string) {
 			c.Sample(map[string]interface{}{"length": j.n, "bufsize": j.b, "separator": sepStr, "modifiers": j.mods, "fan_in": j.fanin, "arrival_order": clipList(arrived, 6), "expanded": clip(want, 200)})
 		}
 	})
+	c18two(c)
 	c.Finish()
+}
+
+// c18two: one process consuming two sub-streams through two joined
+// in-ports; each placeholder must expand to the members of its own sub-stream.
+func c18two(c *chk.Ctx) {
+	type job struct {
+		na, nb     int
+		sa, sb     string
+		b          int
+		cfg        Cfg
+	}
+	rng := c.Rand("c18two")
+	var jobs []*job
+	lens := [][2]int{{2, 3}, {0, 2}, {3, 0}, {1, 1}, {4, 2}, {0, 0}}
+	if c.Thorough() {
+		lens = append(lens, [2]int{7, 1}, [2]int{1, 9}, [2]int{5, 5}, [2]int{12, 3})
+	}
+	for li, l := range lens {
+		for _, b := range []int{1, 3} {
+			if !c.Thorough() && (li+b)%2 != 0 {
+				continue
+			}
+			seps := [][2]string{{"comma", "space"}, {"colon", "colon"}, {"dashI", "comma"}}[(li+b)%3]
+			jobs = append(jobs, &job{na: l[0], nb: l[1], sa: seps[0], sb: seps[1], b: b,
+				cfg: Cfg{Buf: b, Procs: []int{1, 2, 4}[rng.Intn(3)], Sched: fmt.Sprintf("%d,300,500", rng.Intn(1<<30))}})
+		}
+	}
+	run.Parallel(len(jobs), func(i int) {
+		j := jobs[i]
+		root := c.CaseDir()
+		defer c.Drop(root)
+		s := &spec.Spec{Name: "join2", MaxTasks: 4, Sources: map[string]string{}}
+		for _, side := range []struct {
+			tag string
+			n   int
+		}{{"a", j.na}, {"b", j.nb}} {
+			src := &spec.Proc{Name: "src" + side.tag, Kind: spec.KFileSource}
+			for k := 0; k < side.n; k++ {
+				f := fmt.Sprintf("%s%02d.txt", side.tag, k)
+				src.Files = append(src.Files, f)
+				s.Sources[f] = f + "\n"
+			}
+			un := "U" + side.tag
+			s.Procs = append(s.Procs, src, &spec.Proc{Name: un, Kind: spec.KCmd, Cmd: spec.BuildCmd(un, []spec.PortDecl{{Name: "in"}}, []spec.PortDecl{{Name: "out"}}, nil, nil, nil),
+				Outs: []*spec.Out{{Port: "out", Pattern: "ud/{i:in|basename}." + un + ".out"}}},
+				&spec.Proc{Name: "REC" + side.tag, Kind: spec.KRecorder}, &spec.Proc{Name: "SS" + side.tag, Kind: spec.KSubStream})
+			s.Conns = append(s.Conns, &spec.Conn{From: src.Name + ".out", To: un + ".in"}, &spec.Conn{From: un + ".out", To: "REC" + side.tag + ".in"},
+				&spec.Conn{From: "REC" + side.tag + ".out", To: "SS" + side.tag + ".in"}, &spec.Conn{From: "SS" + side.tag + ".substream", To: "JN." + side.tag})
+		}
+		sepA, sepB := spec.JoinSep(j.sa), spec.JoinSep(j.sb)
+		s.Procs = append(s.Procs, &spec.Proc{Name: "JN", Kind: spec.KCmd, Outs: []*spec.Out{{Port: "out", Pattern: "joined.out"}},
+			Cmd: "echo A:{i:a|join:" + sepA + "}:A B:{i:b|join:" + sepB + "}:B > {o:out}"})
+		desc := map[string]interface{}{"lengths": []int{j.na, j.nb}, "bufsize": j.b, "separators": []string{sepA, sepB}, "cfg": j.cfg, "spec": s}
+		res := execSpec(c, root, s, j.cfg, nil, false, 0)
+		if res.Hang != "" {
+			if strings.HasPrefix(res.Hang, "deadlock") {
+				c.Violation("join-hang", fmt.Sprintf("two sub-streams of %d and %d items (buffer %d): %s\n%s", j.na, j.nb, j.b, res.Hang, clip(res.HangInfo, 800)), desc)
+			} else {
+				c.Inconclusive(res.Hang)
+			}
+			return
+		}
+		if res.Exit != 0 || !res.Returned {
+			c.Violation("join-run-failed", fmt.Sprintf("two joined ports, lengths %d/%d: exit %d: %s", j.na, j.nb, res.Exit, tail(res.Output(), 500)), desc)
+			return
+		}
+		ti := mon.Index(res.Trace)
+		ea, eb := recPaths(ti, "RECa"), recPaths(ti, "RECb")
+		pre := func(l []string) []string {
+			var o []string
+			for _, m := range l {
+				o = append(o, "../"+m)
+			}
+			return o
+		}
+		want := "A:" + strings.Join(pre(ea), sepA) + ":A B:" + strings.Join(pre(eb), sepB) + ":B"
+		b, _ := os.ReadFile(filepath.Join(res.Wd, "joined.out"))
+		got := strings.TrimSuffix(string(b), "\n")
+		if len(ea) != j.na || len(eb) != j.nb {
+			c.Violation("substream-length", fmt.Sprintf("%d and %d items reached the sub-streams, expected %d and %d", len(ea), len(eb), j.na, j.nb), desc)
+			return
+		}
+		if got != want {
+			c.Violation("joined-string", fmt.Sprintf("two joined in-ports: command printed %q, expected %q", got, want), desc)
+			return
+		}
+		a, err := mon.LoadAudit(filepath.Join(res.Wd, "joined.out.audit.json"))
+		if err != nil {
+			c.Violation("audit-file-unreadable", err.Error(), desc)
+			return
+		}
+		var ks []string
+		for k := range a.Upstream {
+			ks = append(ks, k)
+		}
+		sort.Strings(ks)
+		as := append(append([]string{}, ea...), eb...)
+		sort.Strings(as)
+		if strings.Join(ks, "\x00") != strings.Join(as, "\x00") {
+			c.Violation("joined-audit-upstream-keys", fmt.Sprintf("two joined in-ports: audit Upstream keys %v, sub-stream members %v", ks, as), desc)
+			return
+		}
+		c.Count("members_compared", j.na+j.nb)
+		c.Nontrivial(fmt.Sprintf("two|%d|%d|%d|%s|%s|%v", j.na, j.nb, j.b, j.sa, j.sb, j.cfg))
+		if i%4 == 0 {
+			c.Sample(map[string]interface{}{"two_joined_ports": true, "lengths": []int{j.na, j.nb}, "separators": []string{sepA, sepB}, "expanded": clip(want, 200)})
+		}
+	})
 }
 
 func clipList(l []string, n int) []string {
